@@ -119,7 +119,10 @@ def h_reopen(o1: int, k1: int, dk: int, p1: bool, p2: bool, p3: bool) -> bool:
         below = sorted(tuple(k.split("/")) for k in files if k.startswith(LAZY + "/"))
         victim = below[pick(dk, 0, len(below) - 1)]
         try:
-            lazy.load()  # whatever the access left unloaded is loaded before the edit (an edit below an unloaded directory is out of scope)
+            # whatever the access left unloaded is loaded before the edit (an edit below an unloaded directory is out of scope); a full
+            # iteration, not load(): load() iterates shallowly and does not reach an unloaded directory nested below an explicit one
+            for _ in lazy.iteritems():
+                pass
             del lazy[victim]
             del full[victim]
             lazy.commit()
